@@ -836,6 +836,14 @@ class Path:
         return "[%s] => %s (%s)" % (g, show(self.ret) if self.ret is not None else "-", self.end)
 
 
+class _AnyField:
+    def __contains__(self, x):
+        return True
+
+
+_ANY = _AnyField()
+
+
 def _stable_expr(v, frozen, depth=0):
     """An expression over the arguments that cannot change during the function: fields that are never written after
     construction, their lengths, constants, and +/- of those."""
@@ -891,6 +899,44 @@ class Walker:
             self.paths = fold_bool_paths(self.paths)
         return self.paths
 
+    def _stable_in_region(self, v, l, se, start_bb):
+        """A local defined once before a loop by an expression over fields of the arguments keeps that value during
+        the loop when nothing in the loop can write those fields: no store to a field of that name, and every call
+        that receives a `&mut` argument has a known mod-set that avoids them."""
+        loops = self.body.natural_loops()
+        region = loops.get(start_bb)
+        if region is None:
+            return False
+        ds = se.defs.get(l, [])
+        if len(ds) != 1 or ds[0][1] in region:
+            return False
+        if not _stable_expr(v, _ANY):
+            return False
+        used = {x[2] for x in subexprs(v) if x[0] == "field"}
+        if not used:
+            return False
+        for bi in region:
+            blk = self.body.blocks[bi]
+            for st in blk["stmts"]:
+                if st["k"] == "assign":
+                    for e in st["place"]["p"]:
+                        if isinstance(e, dict) and e.get("f") in used:
+                            return False
+                    rv = st["rv"]
+                    if rv.get("k") in ("ref", "rawptr") and rv.get("mut"):
+                        for e in rv["place"]["p"]:
+                            if isinstance(e, dict) and e.get("f") in used:
+                                return False
+            t = blk["term"]
+            if t["k"] == "call":
+                d_, rr_, fn_ = callee(t)
+                for ai, a in enumerate(t.get("args", [])):
+                    if a.get("k") in ("copy", "move") and not a["place"]["p"] and strip_lt(self.body.locals[a["place"]["l"]]["ty"]).startswith("&mut "):
+                        ms = self.modset(rr_, ai + 1) if (self.modset is not None and rr_ is not None) else None
+                        if ms is None or (set(ms) & used):
+                            return False
+        return True
+
     def _run(self, start_bb=0):
         env = {}
         for i in range(1, self.body.argc + 1):
@@ -907,6 +953,8 @@ class Walker:
                     except Exception:
                         continue
                     if _stable_arg(v) or (self.facts is not None and _stable_expr(v, self.facts.frozen_fields())):
+                        env[l] = v
+                    elif self._stable_in_region(v, l, se, start_bb):
                         env[l] = v
         env.update(self.init_env)
         st = {"env": env, "heap": {}, "known": {}, "epoch": 0, "subst": {}}
